@@ -53,6 +53,10 @@ CHECKS = {
    text="Exhaustive enumeration of all ordered pairs from the small domain (headers x slices of length <=3; u8, f32 with NaN and -0.0, an Eq-only type) across 13 handle/payload kinds, same and distinct allocations, equal and unequal recorded lengths, plus random larger values; differential oracle against the plain values for every comparison operator, coherence among the operators, a recording Hasher, formatting and map lookups through Borrow.",
    note="Trusted: Rust's tuple/slice comparison on plain values as the reference. Two genuine defects found by this check were repaired in /repo (see KNOWN_FINDINGS.txt, 'fixed:' lines).",
    technique="exhaustive small-domain enumeration + random differential testing against plain values (proptest)"),
+ "C17": dict(engine="serde", category="exploration", design="5 (C17)",
+   text="Generated recursive values driving every Serializer entry point; a recording serializer / deserializer with failure injected at the k-th call; handle versus plain value must produce identical call logs, results and errors; deserialised handles are fresh sole owners; no tracked block survives an error or the results.",
+   note="Trusted: the harness's recording serializer/deserializer and serde's value deserializers; default feature configuration.",
+   technique="differential property testing with k-th-call fault injection (proptest)"),
 }
 NOT_YET = {
 }
@@ -88,6 +92,7 @@ m = {
    {"name": "hist-thin", "path": "harness/hist/src/hist_thin.rs", "serves_properties": ["C10", "C01", "C03", "C04"], "kind_free_text": "model-based history engine for the thin world (ThinArc and its fat views)"},
    {"name": "c16-children", "path": "harness/eng/src/c16.rs", "serves_properties": ["C16"], "kind_free_text": "child-process outcome engine"},
    {"name": "cmp", "path": "harness/eng/src/cmp.rs", "serves_properties": ["C14"], "kind_free_text": "comparison/hash/format differential engine, exhaustive over a small domain + random"},
+   {"name": "serde", "path": "harness/eng/src/serde_eng.rs", "serves_properties": ["C17"], "kind_free_text": "recording serializer/deserializer differential engine"},
    {"name": "matrix", "path": "harness/mx/src/lib.rs", "serves_properties": ["C05", "C11", "C12"], "kind_free_text": "static shape matrix engine with an allocator-level observed oracle"},
    {"name": "hist", "path": "harness/hist/src/hist_sized.rs", "serves_properties": ["C01", "C03", "C04", "C08", "C09"], "kind_free_text": "model-based history engine (proptest-generated op sequences, reference model, tracking allocator, identity-tracked payloads)"},
  ],
